@@ -51,12 +51,19 @@ func svAlphabet(a, b, u uint64, pay int64) []*FrameSpec {
 		/* 25 */ {Id: b, Hdr: "ok:0", Method: mSStr, Src: "src", Dst: "dst", Body: i64(pay + 13), Status: ok, Trl: "ok:0"}, // body + trailer on b, other stream method
 		/* 26 */ {Id: a, Hdr: "ok:0", Method: mUnary, Src: "src", Dst: "dst", Body: i64(pay + 14), Status: bad, Trl: "bad", Rst: "rst"}, // unary request with every other field set, on a stream's id
 		/* 27 */ {Id: a, Hdr: "ok:0", Method: mBidi, Src: "src", Dst: "dst", Body: i64(0)}, // body a whose payload is EMPTY (a zero-valued message): still a body
+		// the SOURCE of the envelope: empty, the server's own name, long and non-ASCII - on the reset paths, an opener, a unary request
+		/* 28 */ {Id: a, Hdr: "ok:0", Method: mBidi, Src: "", Dst: "dst", Body: i64(pay + 15)}, // body a, empty source
+		/* 29 */ {Id: b, Hdr: "bad", Method: mCStr, Src: "", Dst: "dst"}, // open b, undecodable metadata, empty source
+		/* 30 */ {Id: a, Hdr: "ok:0", Method: mBidi, Src: "", Dst: "dst"}, // open a, empty source
+		/* 31 */ {Id: b, Hdr: "ok:0", Method: mCStr, Src: "dst", Dst: "dst", Body: i64(pay + 16)}, // body b, source = the server's own name
+		/* 32 */ {Id: u, Hdr: "ok:0", Method: mUnary, Src: "", Dst: "dst", Body: i64(pay + 17)}, // unary request, empty source
+		/* 33 */ {Id: a, Hdr: "ok:0", Method: mBidi, Src: svLongName, Dst: "dst", Body: i64(pay + 18)}, // body a, long non-ASCII source
 	}
 }
 
 var svAlphabetNames = []string{"unary", "unary-md", "unary-nobody", "unary-badbody", "unary-badmd", "unary-wrongdst", "nohdr", "empty",
 	"badmethod", "emptymethod", "unksvc", "unkmethod", "noslash", "open-a", "open-b", "open-badmd", "body-a", "body-b", "close-a",
-	"close-b-err", "rst-a", "rst-b", "rst-othertype", "open-wrongdst", "badbody-a", "body+trl-b", "unary-allfields", "emptybody-a"}
+	"close-b-err", "rst-a", "rst-b", "rst-othertype", "open-wrongdst", "badbody-a", "body+trl-b", "unary-allfields", "emptybody-a", "body-a-nosrc", "open-b-badmd-nosrc", "open-a-nosrc", "body-b-ownsrc", "unary-nosrc", "body-a-longsrc"}
 
 func svRandHop(r *rand.Rand, unary bool) *HopSpec {
 	mds := []int64{1, 8, 64, 9}
